@@ -89,6 +89,7 @@ type Obligation struct {
 	Claimed  bool
 	Inputs   []string // names of input constants for model projection
 	HeapNote string
+	Replay   *replayResult
 }
 
 type loopSpec struct {
